@@ -32,10 +32,29 @@
         BlockComment.from_value('c', indent='  ')), unclaim_interleaving_comments(), claim_interleaving_comments(u)).
    Still partial:
      C14_rule_single_claim is complete for one surrounding claim (declarative iff on the token list; the
-        _sound/_complete forms add the resulting document).  The rule over whole layouts is NOT proved.
-        Missing: attrib_spec over whole line layouts (priority leading > trailing > standalone across models, and
-        the standalone fall-through) - evaluated by the monitor `rule_check` on every generated layout, excluding
-        the known-finding layout (transaction with meta but no postings, C14:rule:empty-postings-claim-first). *)
+        _sound/_complete forms add the resulting document).
+   The rule over whole layouts (session 4b, CommentsRule.v / CommentsRuleGen.v):
+     attrib_spec d layout c = SLead of the model starting right below c (placeholders aside exactly one line break, no
+        blank line / dedent mark in between, same indentation class), else STrail of the model ending right above, else
+        SRep of the first visited repeated field whose claim_range holds c.
+     The call order (CommentsRule.emit = own leading, own trailing, children last field to first, a repeated field its
+        items last to first and then its own claim; C14_rule_generated_order ties it to the classes extracted on this
+        run) puts, for items A before B of ONE repeated field, B.claim_leading before A.claim_trailing and both before
+        the field's claim (C14_rule_emit_siblings / _items_before_field).  Auto calls never take a comment away
+        (C14_rule_auto_keeps), so the first eligible call decides: C14_rule_leading_first, C14_rule_first_claim_wins,
+        C14_rule_order_decides (the ORDER of the two calls is all there is to "leading > trailing"),
+        C14_rule_standalone_fallthrough.  With C14_claimer_claim_covers: every comment gets the owner attrib_spec names
+        for comments between two entries of one repeated field (top-level entries, meta items, postings, posting meta),
+        before the first / after the last item of a body, at file start / end.
+     NOT covered by proof, validated per trace instead (CommentsRun.attrib_hist: attrib_spec evaluated on the parsed
+        store for every block comment and compared with the owner after File.auto_claim_comments(); counter
+        hyp_attrib_spec_checked): that c is still unclaimed and adjacent / in range when its call comes (calls made for
+        OTHER comments only move placeholders; unrelated models do not reach c).
+     REFUTED for two fields of one model: the later field's own claim precedes the trailing claims of the earlier
+        field's items (C14_rule_emit_later_field_first); Transaction is the only such class and visits postings before
+        meta, so a comment directly below the last meta item of a transaction without postings becomes a postings entry:
+        C14_rule_priority_refuted (= known finding C14:rule:empty-postings-claim-first; the per-trace check accepts
+        exactly this inversion: inversion_b). *)
 From AB Require Import Prelude Comments CommentsProofs CommentsOwn CommentsRestore.
 
 (* eop = the six comment calls + node-level assignment of a comment (x.raw_leading_comment = c, insertion into a
@@ -219,3 +238,121 @@ Example C14_complete_nonvacuous :
    claimable_b (unclaim_all [6] d) 1 items 1 8 [6] = true /\
    fst (claimer_claim (unclaim_all [6] d) 1 items 1 8 (Some [6])) = Ok ([6], [(false, 7); (true, 6)])).
 Proof. repeat split; vm_compute; reflexivity. Qed.
+
+(* ---- session 4b: the attribution rule over whole layouts ----------------------------------------------------------- *)
+From AB Require Import CommentsRule CommentsRuleGen.
+
+(* attrib_spec clause by clause; adj_is d start bw ind c = "the store reads  start-token, placeholders, ONE line break,
+   placeholders, c  (mirrored for bw = true), c of indentation class ind" (C14_rule_adj_is_decl: adjacent_decl) *)
+Theorem C14_rule_attrib_spec_decl : forall d layout c s, attrib_spec d layout c = Some s ->
+  match s with
+  | SLead n => exists start ig ind, In (OS (ClaimLead n start ig ind)) layout /\ adj_is d start true ind c = true
+  | STrail n =>
+    (forall n' start ig ind, In (OS (ClaimLead n' start ig ind)) layout -> adj_is d start true ind c = false) /\
+    exists start ig ind, In (OS (ClaimTrail n start ig ind)) layout /\ adj_is d start false ind c = true
+  | SRep r =>
+    (forall n' start ig ind, In (OS (ClaimLead n' start ig ind)) layout -> adj_is d start true ind c = false) /\
+    (forall n' start ig ind, In (OS (ClaimTrail n' start ig ind)) layout -> adj_is d start false ind c = false) /\
+    exists ph items mf ml flt, In (OClaimInter r ph items mf ml flt) layout /\ in_range_b d ph items mf ml c = true
+  end.
+Proof. exact attrib_spec_decl. Qed.
+
+Theorem C14_rule_adj_is_decl : forall d start bw ind c, NoDup (ids d) -> adj_is d start bw ind c = true ->
+  exists t, t_id t = c /\ In t d /\ is_comment t = true /\ (t_claimed t = false -> adjacent_decl d start bw ind t).
+Proof. exact adj_is_decl. Qed.
+
+Theorem C14_rule_auto_keeps : forall ops st s c,
+  Inv st -> hist_ok ops st = true -> forallb is_auto_op ops = true ->
+  In c (tget (snd st) s) -> In c (tget (snd (fold_left cstep ops st)) s).
+Proof. exact auto_history_keeps. Qed.
+
+Theorem C14_rule_first_claim_wins : forall (lead : bool) ops1 ops2 st n start ig ind c,
+  Inv st ->
+  hist_ok (ops1 ++ sclaim lead n start ig ind :: ops2) st = true -> forallb is_auto_op ops2 = true ->
+  tget (snd (fold_left cstep ops1 st)) (sslot lead n) = [] ->
+  adjacent_decl (fst (fold_left cstep ops1 st)) start lead ind c ->
+  let stf := fold_left cstep (ops1 ++ sclaim lead n start ig ind :: ops2) st in
+  tget (snd stf) (sslot lead n) = [t_id c] /\ forall s, s <> sslot lead n -> ~ In (t_id c) (tget (snd stf) s).
+Proof. exact first_claim_wins. Qed.
+
+Theorem C14_rule_leading_first : forall ops1 ops2 st nB sB ig indB c,
+  Inv st ->
+  hist_ok (ops1 ++ OS (ClaimLead nB sB ig indB) :: ops2) st = true -> forallb is_auto_op ops2 = true ->
+  tget (snd (fold_left cstep ops1 st)) (SLead nB) = [] ->
+  adjacent_decl (fst (fold_left cstep ops1 st)) sB true indB c ->
+  let stf := fold_left cstep (ops1 ++ OS (ClaimLead nB sB ig indB) :: ops2) st in
+  tget (snd stf) (SLead nB) = [t_id c] /\
+  (forall nA, ~ In (t_id c) (tget (snd stf) (STrail nA))) /\ (forall r, ~ In (t_id c) (tget (snd stf) (SRep r))).
+Proof. exact rule_leading_first. Qed.
+
+Theorem C14_rule_order_decides : forall d tb nA sA indA nB sB indB c,
+  Inv (d, tb) -> tget tb (SLead nB) = [] -> tget tb (STrail nA) = [] ->
+  adjacent_decl d sB true indB c -> adjacent_decl d sA false indA c ->
+  (let stf := fold_left cstep [sclaim true nB sB true indB; sclaim false nA sA true indA] (d, tb) in
+   tget (snd stf) (SLead nB) = [t_id c] /\ ~ In (t_id c) (tget (snd stf) (STrail nA))) /\
+  (let stf := fold_left cstep [sclaim false nA sA true indA; sclaim true nB sB true indB] (d, tb) in
+   tget (snd stf) (STrail nA) = [t_id c] /\ ~ In (t_id c) (tget (snd stf) (SLead nB))).
+Proof. exact order_decides. Qed.
+
+Theorem C14_rule_standalone_fallthrough : forall ops1 ops2 st r ph items mf ml c,
+  Inv st ->
+  hist_ok (ops1 ++ OClaimInter r ph items mf ml None :: ops2) st = true -> forallb is_auto_op ops2 = true ->
+  has_tok_b (fst (fold_left cstep ops1 st)) ph = true ->
+  in_range_b (fst (fold_left cstep ops1 st)) ph items mf ml c = true ->
+  let stf := fold_left cstep (ops1 ++ OClaimInter r ph items mf ml None :: ops2) st in
+  In c (tget (snd stf) (SRep r)) /\ forall s, s <> SRep r -> ~ In c (tget (snd stf) s).
+Proof. exact standalone_fallthrough. Qed.
+
+Theorem C14_rule_emit_siblings : forall ms a b x y, m_before a b ms -> In x (emit b) -> In y (emit a) ->
+  precedes x y (emit_ms ms).
+Proof. exact emit_siblings. Qed.
+
+Theorem C14_rule_emit_items_before_field : forall r items m x, min m items -> In x (emit m) ->
+  precedes x (SRep r) (emit_f (AFRep r true items)).
+Proof. exact emit_items_before_field. Qed.
+
+Theorem C14_rule_emit_later_field_first : forall fs fa fb x y,
+  f_before fa fb fs -> In x (emit_f fb) -> In y (emit_f fa) -> precedes x y (emit_fs fs).
+Proof. exact emit_later_field_first. Qed.
+
+From Coq Require Import String.
+
+Theorem C14_rule_generated_order :
+  forallb Desc.claim_ok Generated.classes = true /\
+  Desc.c_claim Generated.c_File = [Desc.CProp "raw_directives_with_comments"%string] /\
+  map Desc.c_name (filter (fun c => Nat.leb 2 (List.length (filter is_wc (Desc.c_claim c)))) Generated.classes)
+    = ["Transaction"%string] /\
+  claim_pos "raw_postings_with_comments" (Desc.c_claim Generated.c_Transaction) 0 = Some 3%nat /\
+  claim_pos "raw_meta_with_comments" (Desc.c_claim Generated.c_Transaction) 0 = Some 4%nat.
+Proof. exact generated_claim_order. Qed.
+
+(* `2000-01-01 *` / `  kax: 1` / `  ; c` with the calls the implementation makes: the rule names the meta item's
+   trailing slot, the postings field (visited first) owns the comment *)
+Theorem C14_rule_priority_refuted :
+  Inv (px_doc, []) /\ hist_ok px_ops (px_doc, []) = true /\ forallb is_auto_op px_ops = true /\
+  map op_slot px_ops = emit px_tree /\
+  attrib_spec px_doc px_ops 16 = Some (STrail 6) /\
+  (exists c, t_id c = 16 /\ adjacent_decl px_doc 13 false (Some true) c) /\
+  owner_of (snd (fold_left cstep px_ops (px_doc, []))) 16 = Some (SRep 9) /\
+  tget (snd (fold_left cstep px_ops (px_doc, []))) (STrail 6) = [] /\
+  inversion_b px_doc px_ops 16 (Some (SRep 9)) = true.
+Proof. exact priority_refuted. Qed.
+
+(* non-vacuity: on ex_doc (directive 2..4, `; c` = 6 directly below it, token 8 directly below the comment) the comment
+   is adjacent to both; the hypotheses of C14_rule_order_decides / _first_claim_wins / _standalone_fallthrough hold and
+   attrib_spec names the leading slot whatever the order of the layout list *)
+Example C14_rule_nonvacuous :
+  (exists c, t_id c = 6 /\ adjacent_decl ex_doc 8 true None c) /\
+  (exists c, t_id c = 6 /\ adjacent_decl ex_doc 3 false None c) /\
+  hist_ok ([] ++ sclaim true 2 8 true None :: [sclaim false 1 3 true None]) (ex_doc, []) = true /\
+  snd (fold_left cstep [sclaim true 2 8 true None; sclaim false 1 3 true None] (ex_doc, [])) = [(SLead 2, [6]); (STrail 1, [])] /\
+  snd (fold_left cstep [sclaim false 1 3 true None; sclaim true 2 8 true None] (ex_doc, [])) = [(STrail 1, [6]); (SLead 2, [])] /\
+  attrib_spec ex_doc [sclaim false 1 3 true None; sclaim true 2 8 true None] 6 = Some (SLead 2) /\
+  hist_ok ([] ++ OClaimInter 9 1 [mkitem false 7 2 4] 1 8 None :: []) (ex_doc, []) = true /\
+  has_tok_b ex_doc 1 = true /\ in_range_b ex_doc 1 [mkitem false 7 2 4] 1 8 6 = true /\
+  attrib_spec ex_doc [OClaimInter 9 1 [mkitem false 7 2 4] 1 8 None] 6 = Some (SRep 9).
+Proof.
+  split; [apply (proj1 (rule_single_claim ex_doc 8 true true None 6 ex_doc_nodup)); vm_compute; reflexivity|].
+  split; [apply (proj1 (rule_single_claim ex_doc 3 false true None 6 ex_doc_nodup)); vm_compute; reflexivity|].
+  repeat split; vm_compute; reflexivity.
+Qed.
